@@ -1,8 +1,279 @@
-import TrustVerif.Model.C15
+import TrustVerif.Lemmas.C15
 
+/-
+C15 — formatting never changes the program and is idempotent.
+
+The statement has four clauses: (1) tokens(format s) = tokens s (comments, pragmas, strings included),
+(2) format (format s) = format s, (3) range / on-type edits only re-lay-out the lines they cover,
+(4) the same for the web IDE formatter.  The code violates every clause somewhere; each theorem below
+says exactly what is proved of the code as it is (`_partial` = under an explicit decidable guard) and
+each `_counterexample` exhibits a concrete input on which the model — and, replayed by the harness, the
+real implementation — violates the full clause.
+-/
 namespace TrustVerif.C15
+open TrustVerif.C15.Gen
 
-/-- placeholder while the pipeline is brought up -/
-theorem c15_stub : shouldGlue .LParen .Star .spaced = true := by decide
+/-! ## Clause 1, the glue rule (table generated from `should_glue`) -/
+
+theorem Cls.mem_all (a : Cls) : a ∈ Cls.all := by
+  cases a with
+  | k x => cases x <;> decide
+  | temporal => decide
+
+/-- The whole table, decided by the kernel over all 46 × 46 class pairs and both styles. -/
+theorem c15_glue_table :
+    ∀ a ∈ Cls.all, ∀ b ∈ Cls.all, ∀ st ∈ [Style.spaced, Style.compact],
+      (gluedUnsafe a b st && !excludedKind a.kind && !excludedKind b.kind) = true →
+        knownHazard a b st = true := by
+  decide +kernel
+
+/-- Clause 1 (glue), partial: whenever `should_glue` writes two tokens without a separator, the pair is
+class-safe (re-lexes as the same two tokens), unless it is one of the recorded hazards
+(`hazardsAlways`, `hazardsCompact`; known finding C15-glue-hazards). -/
+theorem c15_glue_safe_partial (a b : Cls) (st : Style)
+    (ha : excludedKind a.kind = false) (hb : excludedKind b.kind = false)
+    (hg : shouldGlue a.kind b.kind st = true) (hk : knownHazard a b st = false) :
+    classSafe a b = true := by
+  have hst : st ∈ [Style.spaced, Style.compact] := by cases st <;> simp
+  have h := c15_glue_table a (Cls.mem_all a) b (Cls.mem_all b) st hst
+  cases hc : classSafe a b with
+  | true => rfl
+  | false =>
+    have : knownHazard a b st = true := h (by simp [gluedUnsafe, hg, hc, ha, hb])
+    rw [hk] at this
+    exact absurd this (by simp)
+
+/-- non-vacuity of `c15_glue_safe_partial`: `foo(` -/
+example : classSafe (.k .Ident) (.k .LParen) = true :=
+  c15_glue_safe_partial (.k .Ident) (.k .LParen) .spaced (by decide) (by decide) (by decide) (by decide)
+
+/-- Clause 1 is FALSE of the code: `( *` is written `(*`, the start of a block comment. -/
+theorem c15_glue_counterexample_comment :
+    shouldGlue .LParen .Star .spaced = true ∧ classSafe (.k .LParen) (.k .Star) = false := by decide
+
+/-- Clause 1 is false on VALID programs: a typed literal after a keyword (`x MOD INT#5`) is glued to the
+keyword (`MODINT#5`), in both spacing styles. -/
+theorem c15_glue_counterexample_typed_literal :
+    ∀ st, shouldGlue .Kw .TypedLiteralPrefix st = true ∧ classSafe (.k .Kw) (.k .TypedLiteralPrefix) = false := by
+  intro st; cases st <;> decide
+
+/-- Compact style: `/ /` becomes `//` (a line comment), `: =` becomes `:=`. -/
+theorem c15_glue_counterexample_compact :
+    gluedUnsafe (.k .Slash) (.k .Slash) .compact = true ∧ gluedUnsafe (.k .Colon) (.k .Eq) .compact = true := by
+  decide
+
+/-- The unguarded statement fails. -/
+theorem c15_glue_safe_counterexample :
+    ¬ ∀ (a b : Cls) (st : Style), excludedKind a.kind = false → excludedKind b.kind = false →
+        shouldGlue a.kind b.kind st = true → classSafe a b = true := by
+  intro h
+  have := h (.k .LParen) (.k .Star) .spaced (by decide) (by decide) (by decide)
+  exact absurd this (by decide)
+
+/-! ## Clause 1, one line re-emitted by `format_line_tokens` -/
+
+theorem formatLineTokensFrom_eq_render (kc : KwCase) (st : Style) (prev : Option Tok) (ts : List Tok) :
+    formatLineTokensFrom kc st (prev.map (·.kind)) ts =
+      renderFrom (fun a b => shouldGlue a.kind b.kind st) (prev.map (recaseTok kc)) (ts.map (recaseTok kc)) := by
+  induction ts generalizing prev with
+  | nil => simp [formatLineTokensFrom, renderFrom]
+  | cons t rest ih =>
+    have := ih (some t)
+    simp only [Option.map_some] at this
+    cases prev with
+    | none => simp [formatLineTokensFrom, renderFrom, sepBefore, recaseTok, this]
+    | some p => simp [formatLineTokensFrom, renderFrom, sepBefore, recaseTok, this]
+
+theorem recaseTok_cls (L : LexIface) (kc : KwCase) (t : Tok) (hv : L.valid t) : (recaseTok kc t).cls = t.cls := by
+  unfold recaseTok Tok.cls recase
+  cases kc with
+  | preserve => rfl
+  | upper =>
+    cases hk : t.isKw with
+    | false => simp
+    | true =>
+      have := L.valid_kw t hv hk
+      simp [classify, this]
+  | lower =>
+    cases hk : t.isKw with
+    | false => simp
+    | true =>
+      have := L.valid_kw t hv hk
+      simp [classify, this]
+
+theorem adjAll_of_no_hazards (L : LexIface) (kc : KwCase) (st : Style) (ts : List Tok)
+    (hv : ∀ t ∈ ts, L.valid t) (hh : lineHazards st ts = []) :
+    AdjAll (fun a b => (fun (a b : Tok) => shouldGlue a.kind b.kind st) a b = true →
+        classSafe a.cls b.cls = true) (ts.map (recaseTok kc)) := by
+  induction ts with
+  | nil => simp [AdjAll]
+  | cons a rest ih =>
+    cases rest with
+    | nil => simp [AdjAll]
+    | cons b r2 =>
+      simp only [lineHazards, List.append_eq_nil_iff] at hh
+      simp only [List.map_cons, AdjAll]
+      refine ⟨?_, ?_⟩
+      · intro hg
+        rw [recaseTok_cls L kc a (hv a (by simp)), recaseTok_cls L kc b (hv b (by simp))]
+        have hg' : shouldGlue a.kind b.kind st = true := by simpa [recaseTok] using hg
+        cases hc : classSafe a.cls b.cls with
+        | true => rfl
+        | false =>
+          have : gluedUnsafe a.cls b.cls st = true := by
+            have ka : a.cls.kind = a.kind := by
+              unfold Tok.cls classify; split <;> simp_all [Cls.kind]
+            have kb : b.cls.kind = b.kind := by
+              unfold Tok.cls classify; split <;> simp_all [Cls.kind]
+            simp [gluedUnsafe, ka, kb, hg', hc]
+          simp [this] at hh
+      · have := ih (fun t ht => hv t (by simp [ht])) hh.2
+        simpa [List.map_cons] using this
+
+/-- Clause 1 for one code line (no comment, no pragma): the text `format_line_tokens` emits lexes to the
+tokens it was made from, keywords re-cased as configured and nothing else changed — for EVERY token list
+without a recorded glue hazard, every spacing style and every keyword case.  Relative to the abstract
+lexer interface `L` (validated against `trust_syntax::lex` on every run). -/
+theorem c15_line_tokens (L : LexIface) (ts : List Tok) (kc : KwCase) (st : Style)
+    (hv : ∀ t ∈ ts, L.valid t) (hh : lineHazards st ts = []) :
+    L.lex (formatLineTokens ts kc st) = ts.map (recaseTok kc) := by
+  have h := formatLineTokensFrom_eq_render kc st none ts
+  simp only [Option.map_none] at h
+  unfold formatLineTokens
+  rw [h]
+  apply L.locality
+  · intro t ht
+    obtain ⟨u, hu, rfl⟩ := List.mem_map.mp ht
+    exact L.valid_recase kc u (hv u hu)
+  · exact adjAll_of_no_hazards L kc st ts hv hh
+
+/-- "keywords compared case-insensitively": re-casing keeps variant and class, touches only keyword
+tokens, and replaces their text by its ASCII upper- or lower-case form. -/
+theorem c15_recase (kc : KwCase) (t : Tok) :
+    (recaseTok kc t).name = t.name ∧ (recaseTok kc t).kind = t.kind ∧
+    (t.isKw = false → (recaseTok kc t).text = t.text) ∧
+    ((recaseTok kc t).text = t.text ∨ (recaseTok kc t).text = upperText t.text ∨
+      (recaseTok kc t).text = lowerText t.text) := by
+  unfold recaseTok recase
+  cases kc <;> cases t.isKw <;> simp
+
+/-! ## Clause 1, comments and pragmas: verbatim lines -/
+
+/-- A line inside a block comment is emitted unchanged (only a trailing CR is normalised). -/
+theorem c15_verbatim_block (cfg : Config) (st : St) (l : LineIn) (h : l.inBlockComment = true) :
+    ∃ o st', stepLine cfg st l = some (o, st') ∧ o.text = l.text ∧ o.skipAlign = true := by
+  unfold stepLine
+  simp [h, skipAlignOf]
+
+/-- A line that carries a line comment or a pragma is emitted as indentation followed by the trimmed
+source line: nothing between its first and last non-blank character is touched, and the alignment and
+wrapping passes skip it. -/
+theorem c15_verbatim_line (cfg : Config) (st : St) (l : LineIn) (o : OutLine) (st' : St)
+    (hb : l.inBlockComment = false) (hv : (l.hasLineComment || l.hasPragma) = true)
+    (h : stepLine cfg st l = some (o, st')) :
+    o.skipAlign = true ∧ o.colon = none ∧
+      ((o.text = [] ∧ trim l.text = []) ∨ ∃ n, o.text = repeatText (indentUnit cfg) n ++ trim l.text) := by
+  unfold stepLine at h
+  simp only [hb, Bool.false_eq_true, if_false] at h
+  have hsk : skipAlignOf l = true := by
+    unfold skipAlignOf
+    rcases Bool.or_eq_true _ _ |>.mp hv with h1 | h1 <;> simp [h1]
+  split at h
+  · rename_i he
+    simp only [Option.some.injEq, Prod.mk.injEq] at h
+    obtain ⟨rfl, _⟩ := h
+    exact ⟨hsk, rfl, Or.inl ⟨rfl, by simpa using he⟩⟩
+  · split at h
+    · exact absurd h (by simp)
+    · simp only [Option.some.injEq, Prod.mk.injEq] at h
+      obtain ⟨rfl, _⟩ := h
+      unfold emitLine
+      simp only [hv, if_true]
+      exact ⟨hsk, by simp, Or.inr ⟨_, rfl⟩⟩
+
+/-- The wrapping pass returns a skipped line as it is. -/
+theorem c15_verbatim_wrap (unit : Text) (m : Nat) (o : OutLine) (h : o.skipAlign = true) :
+    wrapLine unit m o = [o.text] := by
+  unfold wrapLine
+  split <;> simp [h]
+
+/-! ## Clause 4, the web IDE formatter -/
+
+/-- Line structure: the web formatter emits, for every source line, either an empty line (the line was
+blank) or spaces followed by the line without its leading white space and trailing blanks — nothing else
+of a line changes. -/
+theorem c15_web_lines (lvl : Nat) (raws : List Text) :
+    (webLines lvl raws).length = raws.length ∧
+    ∀ p ∈ raws.zip (webLines lvl raws),
+      (p.2 = [] ∧ webCore p.1 = []) ∨ ∃ n, p.2 = spaces n ++ webCore p.1 := by
+  induction raws generalizing lvl with
+  | nil => simp [webLines]
+  | cons r rest ih =>
+    simp only [webLines, List.length_cons, List.zip_cons_cons, List.mem_cons]
+    refine ⟨by rw [(ih _).1], ?_⟩
+    intro p hp
+    rcases hp with hp | hp
+    · subst hp
+      show ((webStep lvl r).1 = [] ∧ webCore r = []) ∨ ∃ n, (webStep lvl r).1 = spaces n ++ webCore r
+      unfold webStep
+      rcases webStepCore_cases lvl (webCore r) with ⟨h1, h2⟩ | ⟨n, h1, _⟩
+      · exact Or.inl ⟨h1, h2⟩
+      · exact Or.inr ⟨n, h1⟩
+    · exact (ih _).2 p hp
+
+/-- The web formatter changes white space only: the text without white space is preserved, for every
+source text. -/
+theorem c15_web_nonws (s : Text) : nonWs (webFormat s) = nonWs s := by
+  rw [webFormat_eq]
+  split
+  · rename_i h
+    rw [← nonWs_rustLines s, ← nonWs_webLines 0, ← nonWs_joinWith_nl, h]
+  · rw [nonWs_append, nonWs_joinWith_nl, nonWs_webLines, nonWs_rustLines]
+    have : nonWs ['\n'] = [] := by decide
+    simp [this]
+
+/-- Idempotence of the web formatter, partial: for every text in which no kept line ends in a
+carriage return (`noStrayCR`, i.e. no `CR CR LF` and no final line ending in CR). -/
+theorem c15_web_idempotent_partial (s : Text) (h : noStrayCR s = true) :
+    webFormat (webFormat s) = webFormat s := by
+  have hs := webFormat_eq s
+  by_cases hf : joinWith ['\n'] (webLines 0 (rustLines s)) = []
+  · rw [hs]; simp only [hf, if_true]; decide
+  · have hne : webLines 0 (rustLines s) ≠ [] := by
+      intro e; apply hf; rw [e]; rfl
+    have hnonl := webLines_no_nl 0 (rustLines s) (rustLines_no_nl s)
+    have hcr : ∀ o ∈ webLines 0 (rustLines s), o.getLast? ≠ some '\r' := by
+      apply webLines_last_ne_cr
+      intro r hr
+      unfold noStrayCR at h
+      have := List.all_eq_true.mp h r hr
+      simpa using this
+    have hlines : ∀ outs : List Text, outs ≠ [] → (∀ o ∈ outs, '\n' ∉ o) →
+        (∀ o ∈ outs, o.getLast? ≠ some '\r') → rustLines (joinWith ['\n'] outs ++ ['\n']) = outs := by
+      intro outs hne hnonl hcr
+      unfold rustLines
+      rw [splitOn_joinWith_append '\n' _ [] hne hnonl]
+      have : splitOn '\n' [] = [[]] := rfl
+      rw [this, rustLines_go_append_nil]
+      have : ∀ o ∈ outs, stripCR o = o := fun o ho => stripCR_eq_self o (hcr o ho)
+      rw [List.map_congr_left this, List.map_id']
+    have hlines := hlines _ hne hnonl hcr
+    rw [hs]
+    simp only [hf, if_false]
+    rw [webFormat_eq, hlines, webLines_idem]
+    simp [hf]
+
+/-- non-vacuity: an indented program satisfies the guard and is changed by the formatter -/
+example : noStrayCR (txt "IF a THEN\r\nx;\nEND_IF") = true ∧
+    webFormat (txt "IF a THEN\r\nx;\nEND_IF") = txt "IF a THEN\n  x;\nEND_IF\n" := by decide
+
+/-- Idempotence of the web formatter is FALSE in general: `"a\r\r\n"` (known finding C15-web-stray-cr). -/
+theorem c15_web_idempotent_counterexample :
+    webFormat (webFormat (txt "a\r\r\n")) ≠ webFormat (txt "a\r\r\n") := by decide
+
+/-- Clause 4 ("same comments") is FALSE of the web formatter: the interior lines of a multi-line block
+comment are trimmed and re-indented (known finding C15-web-multiline-trivia). -/
+theorem c15_web_comment_counterexample :
+    webFormat (txt "(* a\n     b *)\n") = txt "(* a\nb *)\n" := by decide
 
 end TrustVerif.C15
